@@ -10,6 +10,7 @@ import RotoV.Model.Scope
 import RotoV.Lemmas.Scope
 import RotoV.Lemmas.ScopePath
 import RotoV.Lemmas.ScopeFrame
+import RotoV.Lemmas.ScopeDiscovery
 
 namespace RotoV.C13
 open RotoV.Scope
@@ -183,5 +184,36 @@ theorem import_order_dep :
              kindOf (g₁.resolve 5 6 true) = some (.fn 102) ∧
              kindOf (g₂.resolve 5 6 true) = some (.fn 101) := by
   refine ⟨WF_of_WFb (by decide), _, _, rfl, rfl, ?_, ?_⟩ <;> decide
+
+/-! ## T6 — discovery -/
+
+/-- **T6.** `FileTree::directory` fails exactly when the root has no `pkg.roto`;
+    otherwise the files it finds are `FileTree::file_spec` (`specInto`) applied to
+    the documented module tree of the directory (`specChildren`: `name.roto` and
+    `name/mod.roto` are modules, `pkg.roto` / `mod.roto` are not modules of their
+    own, directories without `mod.roto` and other extensions are ignored), below
+    the root module `pkg` — in `read_dir` order, for every nesting depth. -/
+theorem discovery (root : List Entry) :
+    directory root =
+      if root.any (fun e => match e with | .file stem roto => stem = PKG && roto | _ => false)
+      then some (specInto 0 (specChildren root) [⟨PKG, []⟩]) else none := by
+  unfold directory
+  simp only [findFiles_eq_spec]
+
+/-- the discovered modules, in file order, are `pkg` followed by the pre-order
+    listing of the documented tree -/
+theorem discovery_modules (root : List Entry) (files : List SrcFile)
+    (h : directory root = some files) :
+    files.map (·.moduleName) = PKG :: preorder (specChildren root) := by
+  rw [discovery] at h
+  split at h
+  · cases h
+    simp [specInto_names]
+  · cases h
+
+example : directory [.file PKG true, .file 7 true, .dir 8 [.file MOD true, .file 9 true],
+                     .dir 10 [.file 9 true], .file 11 false, .file MOD true] =
+    some [⟨PKG, [1, 2]⟩, ⟨7, []⟩, ⟨8, [3]⟩, ⟨9, []⟩] := by
+  simp [directory, findFiles, hasMod, pushChild, PKG, MOD, List.modify]
 
 end RotoV.C13
